@@ -2,15 +2,14 @@
 
 HOOK_COMMITS = []   # filled by bin/mkmanifest from `git -C /repo log --grep '^verif hook'`
 
-CLAIMED = {
-    "C31": {
-        "category": "proof",
-        "text": "Lean theorems lev_script_transforms, lev_cost_eq_distance, lev_minimal hold for ALL pairs of token sequences of the model `lev`, a line-by-line mirror of Recovery::levenshtein_distance (DP table with the code's tie order, backtracking, early returns). The model is tied to the code by an exact differential run (distance and script) over all pairs over {0,1,2} up to length 4/5 plus random pairs, and every implementation reply is also fed to the verified oracle (applyOps, cost, proved-minimal distance).",
-        "design_ref": "DESIGN.md §6 C31",
-        "note": "Trusted: Lean kernel (axioms propext, Quot.sound only), the hand-written model's faithfulness as observed by the differential run, the harness and orchestrator. u16 token types modelled as Nat.",
-        "technique": "Lean 4 proof over hand-written model + differential correspondence check",
-    },
-}
+import glob, importlib, os
+
+CLAIMED = {}
+for _f in sorted(glob.glob(os.path.join(os.path.dirname(__file__), "c[0-9][0-9].py"))):
+    _m = importlib.import_module("checks." + os.path.basename(_f)[:-3])
+    if getattr(_m, "CLAIM", None):
+        CLAIMED[os.path.basename(_f)[:-3].upper()] = _m.CLAIM
+
 
 NOT_YET = "machinery for this property is not built yet in this snapshot (planned in DESIGN.md §10); no claim is made"
 
